@@ -134,7 +134,7 @@ def build_repo_native():
 class Job:
     def __init__(self, name, harness, defines=None, entry="harness_main", max_paths=200000, max_steps=5000000,
                  timeout=600, query_timeout_ms=30000, extra_bc=(), uf_muldiv=False, allow_partial=False,
-                 min_completed=1, engine="symx", tag=None, samples=6, max_violations=40):
+                 min_completed=1, engine="symx", tag=None, samples=6, max_violations=40, render_classes=0, false_first=False):
         self.name = name
         self.harness = harness
         self.defines = dict(defines or {})
@@ -151,6 +151,8 @@ class Job:
         self.tag = tag or name
         self.samples = samples
         self.max_violations = max_violations
+        self.render_classes = render_classes
+        self.false_first = false_first
 
     def dflags(self):
         out = []
@@ -191,6 +193,10 @@ def run_symx(job, seed=0, inputs=None):
            "--samples", str(job.samples), "--max-violations", str(job.max_violations)]
     if job.uf_muldiv:
         cmd.append("--uf-muldiv")
+    if job.false_first:
+        cmd.append("--false-first")
+    if job.render_classes:
+        cmd += ["--render-classes", str(job.render_classes)]
     if inputs is not None:
         cmd += ["--inputs", inputs]
     rc, out, wall = run(cmd, timeout=job.timeout + 120)
@@ -427,7 +433,7 @@ def write_evidence(prop, tier, seed, results, wall, level_text, assumptions, nva
             covers[c] = covers.get(c, 0) + n
         jobs.append({"job": j.name, "harness": j.harness, "defines": j.defines, "paths_completed": res["completed"], "paths_infeasible": res["infeasible"],
                      "forks": res["forks"], "queries": res["queries"], "solver_s": round(res["solver_s"], 2), "wall_s": round(res["wall_s"], 2),
-                     "pending": res["pending"], "violations": len(res["violations"]), "bounds": {"max_paths": res["max_paths"], "max_steps_per_path": res["max_steps"], "query_timeout_ms": res["query_timeout_ms"], "time_budget_s": j.timeout},
+                     "pending": res["pending"], "violations": len(res["violations"]), "bounds": {"render_digit_count_classes": res.get("render_classes", 0), "pruned_render_classes": res.get("pruned_render_classes", 0), "max_paths": res["max_paths"], "max_steps_per_path": res["max_steps"], "query_timeout_ms": res["query_timeout_ms"], "time_budget_s": j.timeout},
                      "partial_allowed": j.allow_partial})
         for s in res["samples"][:2]:
             samples.append({"job": j.name, "inputs": s["inputs"], "observed": s["notes"]})
